@@ -175,3 +175,10 @@ func init() {
 	ops["len"] = lc(false)
 	ops["cap"] = lc(true)
 }
+
+func init() {
+	// meta: the inspector fetched from the registry under the type's name reports that name
+	ops["meta"] = func(ins inspector.Inspector, t reflect.Type, form string, args []string, value string) string {
+		return "name=" + ins.TypeName()
+	}
+}
